@@ -7,11 +7,36 @@ import Babble.Proofs.Admission
     validity — is the sender's.  The hash assumption (same id ⇒ same creator and index) connects the
     two stores.
 
+    Regenerated from `event.go` on every run and checked here: the database form writes every field
+    of its wrapper structure and reads every one of them back into the place it was taken from
+    (`db_form_symmetric`, `db_form_complete`), and the wire body carries every field of `WireBody`,
+    each taken from the corresponding field of the event body (`wire_form_complete`,
+    `wire_form_sources`) — a field dropped, swapped or taken from elsewhere in `MarshalDB`,
+    `UnmarshalDB` or `ToWire` breaks these obligations.
+
     Not modelled: `encoding/json`, the `ugorji` codec, base64, SHA-256.  The JSON transport of
     blocks, frames and events, the database form, and the independence of the frame hash from map
     order are decided by the correspondence run on the real encoders (DESIGN.md §3 C15). -/
 namespace Babble.Props.C15
 open Babble Babble.HG
+
+/-- `UnmarshalDB` puts every field of the wrapper back where `MarshalDB` took it from -/
+theorem db_form_symmetric : Gen.eventDBWritten = Gen.eventDBRead := by decide
+
+/-- … and both handle every field of the wrapper structure -/
+theorem db_form_complete : Gen.eventDBWritten.map (·.1) = Gen.eventDBStruct := by decide
+
+/-- `ToWire` fills every field of `WireBody` -/
+theorem wire_form_complete : Gen.wireBodyWritten.map (·.1) = Gen.wireBodyStruct := by decide
+
+/-- … each from the corresponding field of the event (parents travel as the creator id and index
+    coordinates set by `SetWireInfo`; block signatures in their wire form) -/
+theorem wire_form_sources :
+    Gen.wireBodyWritten =
+      [("BlockSignatures", "e.WireBlockSignatures()"), ("CreatorID", "e.Body.creatorID"), ("Index", "e.Body.Index"),
+       ("InternalTransactions", "e.Body.InternalTransactions"), ("OtherParentCreatorID", "e.Body.otherParentCreatorID"),
+       ("OtherParentIndex", "e.Body.otherParentIndex"), ("SelfParentIndex", "e.Body.selfParentIndex"),
+       ("Timestamp", "e.Body.Timestamp"), ("Transactions", "e.Body.Transactions")] := by decide
 
 theorem byIndex_of_mem (s : St) (hI : AdmInv s.events) (p : Ev) (hp : p ∈ s.events) :
     s.byIndex p.creator p.index = some p := by
